@@ -240,7 +240,7 @@ func outOfDomainElem(kind string) (model.Elem, bool) {
 
 func genC09(t *rapid.T) c09Case {
 	c := c09Case{Variant: rapid.IntRange(0, 11).Draw(t, "variant")}
-	nm := newNamer(true, true)
+	nm := newNamer(false, true)
 	withEllipsis := rapid.IntRange(0, 3).Draw(t, "withEllipsis") == 3
 	c.Tree = genTree(t, treeOpts{Vars: true, Ellipsis: withEllipsis, Suffix: true, NoDeep: true, VarPct: 45, MaxDepth: 4}, nm)
 	numberEllipses(c.Tree)
